@@ -129,6 +129,16 @@ def extra_names(rng, model: sites.SiteModel) -> None:
         parts = n.split("/")[:-1]
         for i in range(len(parts)):
             dirs.add("/".join(parts[:i + 1]))
+    # mailboxes whose own path contains the virtual-argument separators
+    mb = trees.make_mbox(["Sep one", "Sep two"], "/var/tmp")
+    for n in ("team|list.mbox", "who?.mbox", "in|out/box.mbox"):
+        t.file(n, mb)
+        model.add(b"/" + n.encode(), "doc", None, tags=["file", "extra", "mbox-with-separator"])
+    model.add(b"/in|out", "menu", tags=["dir", "extra"])
+    t.subtree("mail|dir", trees.maildir_tree(["Sep maildir"], where="cur"))
+    # a legal path whose percent-encoded URL is longer than 8 KB (non-ASCII names triple in length)
+    deep = "/".join(["\u00e9" * 100 + str(i) for i in range(14)])
+    t.file(deep + "/bottom.txt", "bottom of the deep tree\n")
     t.file(b"lat\xe9n/f\xefle.txt", b"latin1 names\n")
     model.add(b"/lat\xe9n/f\xefle.txt", "doc", b"latin1 names\n", mime="text/plain", tags=["file", "extra"])
     model.add(b"/lat\xe9n", "menu", tags=["dir", "extra"])
